@@ -21,6 +21,9 @@ REPO = os.environ.get("VERIF_REPO", "/repo")
 NPROC = int(os.environ.get("VERIF_WORKERS", "0")) or min(16, os.cpu_count() or 4)
 OUT = os.environ.get("VERIF_OUT", VERIF)      # where evidence/ and replays/ are written (self-tests redirect it)
 BACKEND = os.environ.get("VERIF_BACKEND", "ecdsa")   # "ecdsa" (what this sandbox has) | "stub" (fake pysecp256k1)
+#                                                      | "ecdsa-O" / "stub-O": the same under `python -O` (asserts stripped)
+BACKEND_BASE = BACKEND.split("-")[0]
+OPTIMIZED = BACKEND.endswith("-O")
 
 
 class HarnessError(Exception):
@@ -31,19 +34,30 @@ class HarnessError(Exception):
 def ensure_env():
     """Pin PYTHONHASHSEED (re-exec once) and put the repo first on sys.path."""
     want = os.environ.get("VERIF_HASHSEED", "0")
+    reexec = False
     if os.environ.get("PYTHONHASHSEED") != want:
         os.environ["PYTHONHASHSEED"] = want
+        reexec = True
+    # interpreter configuration: "-O" back ends run the library (and the harness, which relies on no assert)
+    # with assert statements stripped; everything else must run with them
+    if OPTIMIZED and sys.flags.optimize == 0:
+        os.environ["PYTHONOPTIMIZE"] = "1"
+        reexec = True
+    if not OPTIMIZED and sys.flags.optimize != 0:
+        os.environ.pop("PYTHONOPTIMIZE", None)
+        os.execv(sys.executable, [sys.executable] + sys.argv)     # (only reachable when started with the env set)
+    if reexec:
         os.execv(sys.executable, [sys.executable] + sys.argv)
     if REPO not in sys.path:
         sys.path.insert(0, REPO)
     sys.dont_write_bytecode = True
     from . import sched as _sched
     _sched.install_lock_seam()        # threading.Lock/RLock created by the library become scheduler-aware
-    if BACKEND == "stub":
+    if BACKEND_BASE == "stub":
         from . import fake_secp
         fake_secp.install()           # must happen before the library is imported: it picks its back end at import
     import btc_hd_wallet  # noqa
-    if BACKEND == "stub":
+    if BACKEND_BASE == "stub":
         # the library must really have taken the pysecp256k1 path: a probe key construction has to reach the stub
         # (checked by behaviour, not by looking at module attributes, so a refactor of the dispatch cannot break it)
         import btc_hd_wallet.keys as _keys
@@ -647,7 +661,8 @@ def run_check(sim, prop, tier, verif_seed, n_runs=None, seconds=None, level="exp
             try:
                 cmd = [sys.executable, os.path.join(VERIF, "check"), prop, "--tier", tier, "--no-hashseed-selftest"]
                 cmd += ["--runs", str(n_sub)] if n_sub else ["--seconds", str(secs_sub)]
-                envs = dict(os.environ, VERIF_BACKEND=be, VERIF_OUT=tmpo, VERIF_SEED=str(verif_seed))
+                envs = dict(os.environ, VERIF_BACKEND=be, VERIF_OUT=tmpo, VERIF_SEED=str(verif_seed),
+                            VERIF_NO_SECONDARY="1")
                 sp = subprocess.run(cmd, env=envs, capture_output=True, text=True, timeout=7200)
                 sub_ev = {}
                 try:
@@ -657,9 +672,11 @@ def run_check(sim, prop, tier, verif_seed, n_runs=None, seconds=None, level="exp
                     pass
                 sc = sub_ev.get("coverage", {})
                 cov["backend_%s" % be] = {
-                    "what": "same simulator, library imported with sim/fake_secp.py registered as pysecp256k1 "
-                            "(stub of the C library's contract): exercises the primary-path glue that is dead code "
-                            "with the real package here",
+                    "what": ("same simulator in a separate interpreter started with PYTHONOPTIMIZE=1 (python -O): assert "
+                             "statements of the library are stripped, as in an optimised deployment") if be.endswith("-O")
+                    else ("same simulator, library imported with sim/fake_secp.py registered as pysecp256k1 "
+                          "(stub of the C library's contract): exercises the primary-path glue that is dead code "
+                          "with the real package here"),
                     "exit": sp.returncode, "runs": sc.get("evaluations", 0),
                     "distinct_nontrivial": sc.get("distinct_nontrivial", 0),
                     "fault_kinds_fired": sc.get("fault_kinds_fired"), "violations": sub_ev.get("violations"),
